@@ -89,6 +89,19 @@ func table(mode string, v encx.Vault, m encx.Manifest, optkn string) encx.UTable
 	return t
 }
 
+// genScript: a read script over `total` bytes.  Styles 0 1 2 4 as encx.GenItems; 5 = a zero-length
+// read before every data read, well over 100 of them in total, the first 260 bytes (a header)
+// one byte at a time; 6 = runs of 50 consecutive zero-length reads.
+func genScript(r *hx.Rand, total, style, maxItems int) encx.SItems {
+	switch style {
+	case 5:
+		return encx.GenZeroHeavy(r, total, r.Range(110, 300), 260, r.Bool())
+	case 6:
+		return encx.GenZeroRuns(r, total, 50, r.Bool())
+	}
+	return encx.GenItems(r, total, style, 1+r.Intn(total+1), maxItems)
+}
+
 func cphName(o *encx.Opts) string {
 	if o == nil || o.Cipher == nil {
 		return "default"
@@ -151,7 +164,7 @@ func run(ctx *core.Ctx, in input) error {
 			if in.Big {
 				maxItems = 10
 			}
-			sc2 = encx.GenItems(r, len(res.Doc), in.Style2, 1+r.Intn(len(res.Doc)+1), maxItems)
+			sc2 = genScript(r, len(res.Doc), in.Style2, maxItems)
 		}
 		// the recipient's vault holds the sender's key under the name Decrypt must use, and other
 		// keys under every other name in play
@@ -187,7 +200,7 @@ func run(ctx *core.Ctx, in input) error {
 			if in.Big {
 				maxItems = 10
 			}
-			sc = encx.GenItems(r, len(doc), in.Style2, 1+r.Intn(len(doc)+1), maxItems)
+			sc = genScript(r, len(doc), in.Style2, maxItems)
 		}
 		dres := encx.RunDecrypt(doc, sc, tbl, in.OptKn, r.Fork())
 		d := sha256.Sum256(doc)
@@ -422,6 +435,38 @@ func gen(ctx *core.Ctx) {
 		sc := encx.GenItems(r, n, 2, 1+r.Intn(n+1), 16)
 		sc = append(sc, encx.SItem{K: "f"})
 		must(input{Kind: "enc", Opts: &o, P: encx.GenPlain(r, n), Script: sc, WfkLen: 32, Seed: r.U64()})
+	}
+	// 4b. a source that delivers its error TOGETHER with data - once and then the input ends, once and
+	// then the rest follows, or on every later read too - with the last byte of the plaintext or earlier
+	for i := 0; i < 9*mult; i++ {
+		o := genOpts(r, "AES", ciphers()[i%3], 0)
+		n := r.Range(1, 300)
+		upto := n
+		if i%2 == 1 {
+			upto = r.Range(1, n)
+		}
+		sc := encx.WithError(encx.GenItems(r, upto, 2*(i%2), 1+r.Intn(upto+1), 16),
+			[]string{"data_sticky", "data_once_eof", "data_once_continue"}[i%3], n-upto)
+		must(input{Kind: "enc", Opts: &o, P: encx.GenPlain(r, n), Script: sc, WfkLen: 40, Seed: r.U64()})
+	}
+	// 4c. long read scripts: a zero-length read before every data read, 110-400 of them in one stream
+	// (never two in a row), and runs of 50 consecutive zero-length reads; on the plaintext given to
+	// Encrypt and on the document given to Decrypt (there also byte by byte through the header)
+	for i := 0; i < 6*mult; i++ {
+		cph := ciphers()[1+i%2]
+		o := genOpts(r, algs[r.Intn(len(algs))], cph, r.Intn(2))
+		n := r.Range(300, 2500)
+		sc := encx.GenZeroHeavy(r, n, r.Range(110, 400), 0, i%2 == 0)
+		st2 := 5
+		if i%3 == 2 {
+			sc = encx.GenZeroRuns(r, n, 50, i%2 == 0)
+			st2 = 6
+		}
+		must(input{Kind: "enc", Opts: &o, P: encx.GenPlain(r, n), Script: sc, Style2: st2, Dec: "right",
+			WfkLen: wfkLen(r, o.Alg), Seed: r.U64()})
+		in := specInput(r, o, r.Range(300, 2500), "", "right", false)
+		in.Style2 = 5 + i%2
+		must(in)
 	}
 	// 5. the stored documents of the repository's tests
 	files := []struct {
